@@ -740,7 +740,10 @@ func refreshRing(r *ringDescriber) error {
 			newHostID := h.HostID()
 			existing, ok := prevHosts[newHostID]
 			if !ok {
-				return fmt.Errorf("get existing host=%s from prevHosts: %w", h, ErrCannotFindHost)
+				// the same host id was reported twice (e.g. a stale system.peers row next to the
+				// current one): the first row has been processed, the others are ignored instead of
+				// aborting the refresh half way
+				continue
 			}
 			if h.connectAddress.Equal(existing.connectAddress) && h.nodeToNodeAddress().Equal(existing.nodeToNodeAddress()) {
 				// no host IP change
